@@ -246,11 +246,18 @@ func runC05(sc *Scenario, keepLog bool) *RunReport {
 			if op.Kind == KSpec {
 				// the option a spec validator captured depends on concurrent setters: checked by the register history instead
 				wk, gk = stripCaptured(wk), stripCaptured(gk)
-				if op.COE == nil && hasSetter(sc) {
-					continue
-				}
 			}
-			if op.Kind == KSpecOne && hasSetter(sc) {
+			if (op.Kind == KSpecOne || (op.Kind == KSpec && op.COE == nil)) && hasSetter(sc) {
+				// which package default this validation ran under depends on the concurrent setters: its outcome must be
+				// the solo outcome under one of the two settings
+				a := stripCaptured(sharedHistoryOracle.get(op, sc.LL, "coe=false").Key())
+				b := stripCaptured(sharedHistoryOracle.get(op, sc.LL, "coe=true").Key())
+				rep.probe("spec-outcome-checked-against-both-settings", 1)
+				if gk != a && gk != b {
+					rep.Violations = append(rep.Violations, Violation{Property: "C05", Class: "outcome-mismatch", OpUID: op.UID, OpKind: op.Kind, Site: "neither-setting",
+						Expected: a + "\n--- or ---\n" + b, Got: gk,
+						Detail: fmt.Sprintf("task %d op #%d (%s) returned what it returns alone under neither continue-on-errors setting", ti, i, op.brief())})
+				}
 				continue
 			}
 			if gk != wk {
